@@ -96,6 +96,10 @@ func (k Keeper) CalculateReward(ctx sdk.Context, addr sdk.AccAddress, id uint64)
 		// Get global vote counts for the past dispute
 		pastVoteCounts, err := k.VoteCountsByGroup.Get(ctx, pastId)
 		if err != nil {
+			// a round in which nobody voted has no vote counts and contributes nothing
+			if errors.Is(err, collections.ErrNotFound) {
+				continue
+			}
 			return math.Int{}, err
 		}
 		// Add up the global power for each group
